@@ -33,7 +33,7 @@ def kahn_rules(rep, prog, f, S):
     fors = [kv for kv in loops if kv[1]["test"] is None]
     if len(whiles) != 1 or len(fors) != 1:
         rep.unk("KAHN.shape", fwhere(f), "topological_ordering is no longer a work-list loop with one inner loop over children; the Kahn rules do not read this idiom")
-        return
+        return "unread"
     (lw, w), (lf, fo) = whiles[0], fors[0]
     state = w["init"]
     def listlike(v):
@@ -46,9 +46,22 @@ def kahn_rules(rep, prog, f, S):
     if len(mats) == 0 and len(lists) == 1 and len(work) == 1:
         rep.bad("KAHN.remove-edge", fwhere(f, w["node"]), "the working matrix is never updated inside the loop: visited edges are not removed, so no child ever becomes ready")
         return
+    deg_ = None
+    if len(mats) == 1 and len(lists) == 1 and len(work) == 2:
+        # the textbook variant: an in-degree array, initialised with the column counts of the 0/1 working matrix and decremented
+        # whenever an edge into the node is removed, is tested instead of the parent set
+        a0 = state[mats[0]]
+        b0 = a0[1] if a0[0] == "method" and a0[2] == "copy" else a0
+        is01 = b0[0] == "method" and b0[2] == "astype" and b0[1][0] == "cmp" and b0[1][1] == "!=" and is_const(b0[1][3], 0) and b0[3][:1] in ((("extref", "int"),), (("extref", "bool"),))
+        ax0 = (("axis", ("const", 0)),)
+        counts = [("method", a0, "sum", (), ax0), ("method", a0, "sum", (("const", 0),), ()), ("ext", "numpy.sum", (a0,), ax0), ("ext", "numpy.count_nonzero", (a0,), ax0)]
+        cand = [k for k in work if state[k] in counts]
+        if is01 and len(cand) == 1:
+            deg_ = cand[0]
+            work = [k for k in work if k != deg_]
     if len(mats) != 1 or len(lists) != 1 or len(work) != 1:
         rep.unk("KAHN.shape", fwhere(f), "loop state is not (working matrix, work list, output list): %s" % sorted(state))
-        return
+        return "unread"
     A_, out_, wl_ = mats[0], lists[0], work[0]
     muA, muW, muO = ("mu", lw, A_), ("mu", lw, wl_), ("mu", lw, out_)
     # K1 sources
@@ -126,7 +139,8 @@ def kahn_rules(rep, prog, f, S):
     j = ("elem", fo["iter"])
     okc = fo["iter"] == ("call", U + "ch", (popped, muA), (("A", muA), ("i", popped)))
     rep.check("KAHN.children", okc, fwhere(f, fo["node"]), "visits the children of the emitted node in the current matrix", "inner loop runs over %s" % fmt(fo["iter"])[:100])
-    sts = [s_ for s_ in S.select("store", root=q) if lf in s_.loops]
+    sts_all = [s_ for s_ in S.select("store", root=q) if lf in s_.loops]
+    sts = [s_ for s_ in sts_all if deg_ is None or not (s_.base[0] == "mu" and s_.base[2] == deg_)]
     oks = len(sts) == 1 and sts[0].idx == ("tuple", (popped, j)) and is_const(sts[0].value, 0) and sts[0].aug is None
     if not sts:
         # all out-edges of the emitted node removed at once (A[i, :] = 0), the children having been read from the matrix before
@@ -144,8 +158,31 @@ def kahn_rules(rep, prog, f, S):
         ready_forms = [("empty", pa_j), ("atom", pa_j, False), ("atom", ("method", col, "any", (), ()), False), ("atom", ("ext", "numpy.any", (col,), ()), False),
                        ("==0", (((("method", col, "sum", (), ()),), 1),)), ("==0", (((("ext", "numpy.sum", (col,), ()),), 1),)),
                        ("==0", (((("ext", "numpy.count_nonzero", (col,), ()),), 1),))]
+        row = ("sub", updated, ("tuple", (j, FULL_)))
+        for a_, b_ in ((("cmp", "!=", col, ("const", 0)), ("cmp", "==", row, ("const", 0))), (("cmp", "==", row, ("const", 0)), ("cmp", "!=", col, ("const", 0)))):
+            for both in (("ext", "numpy.logical_and", (a_, b_), ()), ("binop", "&", a_, b_)):
+                # pa(j, A) written out: some k with A[k, j] != 0 and A[j, k] == 0
+                ready_forms += [("atom", ("ext", "numpy.any", (both,), ()), False), ("atom", ("method", both, "any", (), ()), False),
+                                ("==0", (((("ext", "numpy.count_nonzero", (both,), ()),), 1),)), ("==0", (((("method", both, "sum", (), ()),), 1),))]
         okr = len(apps) == 1 and apps[0].args == [j] and apps[0].recv[0] == "mu" and apps[0].recv[2] == wl_ and apps[0].path and \
             apps[0].path[-1][1] is True and npred(apps[0].path[-1][0], True) in ready_forms
+        if deg_ is not None:
+            # in-degree form: exactly one `deg[j] -= 1` next to the one `A[i, j] = 0` (same conditions), and `deg[j] == 0` read after it
+            dsts = [s_ for s_ in sts_all if s_.base[0] == "mu" and s_.base[2] == deg_]
+            paired = len(dsts) == 1 and dsts[0].idx == j and dsts[0].aug == "-" and is_const(dsts[0].value, 1) and tuple(dsts[0].path) == tuple(sts[0].path) and \
+                dsts[0].loops == sts[0].loops
+            if paired:
+                dupd = ("store", dsts[0].base, dsts[0].idx, dsts[0].value, "-")
+                okr = len(apps) == 1 and apps[0].args == [j] and apps[0].recv[0] == "mu" and apps[0].recv[2] == wl_ and apps[0].path and \
+                    apps[0].path[-1][1] is True and npred(apps[0].path[-1][0], True) in (("==0", (((("sub", dupd, j),), 1),)), ("==0", (((("sub", dupd, j),), -1),))) and \
+                    tuple(apps[0].path[:-1]) == tuple(dsts[0].path)
+                rep.check("KAHN.ready", okr, fwhere(f, apps[0].node if apps else None),
+                          "in-degree form: deg = column counts of the 0/1 matrix, one `deg[j] -= 1` per removed edge into j, j joins the work list exactly when deg[j] reaches 0",
+                          "readiness test is not `deg[j] == 0` on the decremented in-degree followed by sinks.append(j)")
+            else:
+                rep.bad("KAHN.ready", fwhere(f, fo["node"]), "the in-degree array is not decremented exactly once (deg[j] -= 1) with each removed edge i -> j: it no longer counts the parents left")
+            okr = None
+    if oks and okr is not None:
         rep.check("KAHN.ready", okr, fwhere(f, apps[0].node if apps else None), "a child joins the work list exactly when it has no parent left in the *updated* matrix",
                   "readiness test is not `len(pa(j, updated A)) == 0` followed by sinks.append(j)")
     # K4 leftover: either "entries are left in the working matrix" or "fewer nodes emitted than there are"
@@ -182,6 +219,17 @@ def cycle_rules(rep, prog, f, leftover):
     """every kind of cycle is rejected by the pre-check or by the leftover check - whatever the signs"""
     fpre, cov = PW.precheck_coverage(prog)
     w = fwhere(f, cov["node"]) if cov["node"] is not None else fwhere(f)
+    if leftover == "unread":
+        # the loop is written in a form the Kahn rules do not read: what the leftover test catches is not known either
+        if cov["false_rejections"]:
+            rep.bad("CYCLES.false-rejection", w, "the pre-check also fires on acyclic patterns (entry pairs %s): valid DAGs are rejected" % cov["false_rejections"][:4])
+        for nm_, covered in (("CYCLES.self-loop", cov["diag"]), ("CYCLES.two-cycle", cov["pairs"])):
+            if covered:
+                rep.ok(nm_, w, "rejected by the pre-check")
+            else:
+                rep.unk(nm_, w, "not covered by the pre-check, and the loop after it is not read")
+        rep.unk("CYCLES.longer", w, "whether longer cycles are caught depends on the loop, which is not read")
+        return
     if cov["false_rejections"]:
         rep.bad("CYCLES.false-rejection", w, "the pre-check also fires on acyclic patterns (entry pairs %s): valid DAGs are rejected" % cov["false_rejections"][:4])
     # entries on the diagonal / of two-cycles are never removed by Kahn's loop (it only clears edges to *children*, and
